@@ -85,6 +85,19 @@ func (c *consRunner) snapshot() map[string]string {
 		m["record"] = "-"
 	}
 	snapshotConsRewards(w, m)
+	var conns []string
+	for i := 0; i < 3; i++ {
+		var r ConnRec
+		if w.env.get(w.ctx, fmt.Sprintf("conn/connection-%d", i), &r) {
+			conns = append(conns, fmt.Sprintf("connection-%d:%s", i, r.ClientID))
+		}
+	}
+	m["conns"] = strings.Join(conns, ",")
+	if pc, ok := w.ck.GetProviderClientID(w.ctx); ok {
+		m["pclient"] = pc
+	} else {
+		m["pclient"] = "-"
+	}
 	m["h"] = fmt.Sprint(w.ctx.BlockHeight())
 	m["now"] = fmt.Sprint(w.ctx.BlockTime().UnixNano() - t0.UnixNano())
 	// environment: is the CCV channel still open?
@@ -299,9 +312,31 @@ func init() {
 			run.Do("keyorder order=" + strings.Join(s, ","))
 			retry := []int64{2 * sec, 5 * sec, 3600 * sec}[r.intn(3)]
 			run.Do(opLine("cinit", "retry", retry, "initial", fmtPairs(genSet(r, 8, 6, 0))))
+			// the handshake phase: no provider channel yet, so attempts can succeed
+			handshakeBurst := func() {
+				run.Do("cmkconn conn=connection-0 client=07-tendermint-0")
+				run.Do("cmkconn conn=connection-1 client=07-tendermint-1")
+				for i := 0; i < 8; i++ {
+					run.Do(genConsHandshake(r, c))
+				}
+				if r.chance(75) {
+					// the handshake as it should go, possibly acknowledged twice
+					run.Do("cchaninit ch=channel-20 order=ORDERED port=consumer cport=provider ver=1 hops=connection-0")
+					run.Do("cchanack ch=channel-20 md=1")
+					if r.chance(40) {
+						run.Do(genConsHandshake(r, c))
+						run.Do("cchanack ch=channel-20 md=1")
+					}
+				}
+			}
+			handshakeBurst()
 			nextID := int64(1)
 			for i := 0; i < n; i++ {
 				h, _ := strconv.ParseInt(c.prev["h"], 10, 64)
+				if r.chance(9) {
+					run.Do(genConsHandshake(r, c))
+					continue
+				}
 				switch pickWeighted(r, []int{22, 20, 18, 14, 3, 1}) {
 				case 0: // a block boundary
 					run.Do("cend")
@@ -371,6 +406,7 @@ func init() {
 					if r.chance(10) {
 						run.Do(opLine("cinit", "retry", retry, "initial", fmtPairs(genSet(r, 8, 6, 0))))
 						nextID = 1
+						handshakeBurst()
 					}
 				}
 			}
